@@ -15,7 +15,8 @@ deriving Repr, DecidableEq
 /-- what a call returned: delivered bytes, and the error class -/
 structure Outcome where
   data : Bytes := []
-  /-- "" = nil; "timeout" / "block" are not permanent -/
+  /-- "" = nil; "timeout" / "block" are not permanent ("block": the call had not returned when the
+      observer stopped waiting) -/
   err : String := ""
 deriving Repr, DecidableEq
 
@@ -61,6 +62,16 @@ structure St where
   empties : Nat := 0
   /-- a CloseWrite has failed -/
   cwFailed : Bool := false
+  /-- a forgery arrived on a stream that was intact and open until then: the next thing a `Read`
+      meets once the bytes owed have been handed over -/
+  forgedLive : Bool := false
+  /-- this side has detected a fatal error on what it received (a record that does not
+      authenticate has been looked at, or a `Read` has reported a local alert): the connection is
+      dead in both directions -/
+  fatal : Bool := false
+
+/-- a `Read` reported an alert raised by this side (`local.<n>`) -/
+def isLocalAlert (e : String) : Bool := e.startsWith "local."
 
 /-- first violated clause, if any -/
 def check : St → List Step → Option (String × String)
@@ -69,7 +80,9 @@ def check : St → List Step → Option (String × String)
     let s := if b.isEmpty then { s with empties := s.empties + 1, damaged := s.damaged || s.empties + 1 > 16 }
              else { s with empties := 0 }
     check (if s.sawCloseNotify || s.endedClean || s.endedInside || s.forged then s else { s with owed := s.owed ++ b }) rest
-  | s, .forgery :: rest => check { s with forged := true, damaged := true } rest
+  | s, .forgery :: rest =>
+    check { s with forged := true, damaged := true,
+                   forgedLive := s.forgedLive || (!s.damaged && !s.sawCloseNotify && !s.endedClean && !s.endedInside) } rest
   | s, .peerCloseNotify :: rest => check { s with sawCloseNotify := true } rest
   | s, .transportEnd inside :: rest =>
     check (if inside then { s with endedInside := true, damaged := true } else { s with endedClean := true }) rest
@@ -85,6 +98,8 @@ def check : St → List Step → Option (String × String)
         some ("sticky-read", "a Read after a failed Read succeeded or delivered bytes")
       else if ne && s.hsFailed && (!failed || !o.data.isEmpty) then
         some ("sticky-handshake", "a Read after a failed handshake succeeded")
+      else if ne && s.fatal && (o.err == "" || o.err == "block" || !o.data.isEmpty) then
+        some ("read-after-fatal", "a Read after a fatal error of the record layer did not fail or delivered bytes")
       else if !(s.delivered ++ o.data).isPrefixOf s.owed then
         some ("data-after-damage", "bytes were delivered that the peer did not write before its stream closed, ended or was damaged")
       else if o.err == "eof" && !s.sawCloseNotify && !s.endedClean then
@@ -98,16 +113,27 @@ def check : St → List Step → Option (String × String)
         -- the peer wrote before closing
         some ("error-on-intact-stream", "a Read failed although only application data, close_notify or a clean transport end had arrived: the stream was not reported faithfully (undelivered bytes are lost, end-of-stream is never seen)")
       else
+        -- fatal errors: the call reports a local alert; or it returns an error — whichever: with the
+        -- transport refusing writes it may be the transport's — at the moment the forged record is
+        -- the next thing in the stream (everything owed has been handed over, this call included):
+        -- the record that does not authenticate has been looked at
+        let sawForgery := ne && s.forgedLive && !s.closed && !s.hsFailed && o.err != "" && o.err != "block" &&
+          s.delivered ++ o.data == s.owed
         check { s with readFailed := s.readFailed || (ne && failed), delivered := s.delivered ++ o.data,
-                       eofSeen := s.eofSeen || o.err == "eof" } rest
+                       eofSeen := s.eofSeen || o.err == "eof",
+                       fatal := s.fatal || (ne && isLocalAlert o.err) || sawForgery } rest
     | .write =>
       -- a failed write has consumed a sequence number and possibly put part of a record on the
       -- wire: whatever the cause (also a write deadline), the write side is dead afterwards
-      let failed := o.err != ""
-      if s.closed && !failed then some ("write-after-close", "a Write after Close succeeded")
+      -- "block": the call is inside the transport write (a Write on another goroutine, observed up
+      -- to there): it was not refused — as little as one that succeeded — but has not failed either
+      let failed := o.err != "" && o.err != "block"
+      if s.closed && !failed then some ("write-after-close", "a Write after Close succeeded or reached the transport")
       else if s.writeShut && !failed then some ("write-after-closewrite", "a Write after CloseWrite (successful or not) succeeded")
       else if s.writeFailed && !failed then some ("sticky-write", "a Write after a failed Write succeeded")
       else if s.hsFailed && !failed then some ("sticky-handshake", "a Write after a failed handshake succeeded")
+      else if s.fatal && !failed then
+        some ("write-after-fatal", "a Write succeeded after the record layer had detected a fatal error on this connection (a record that does not authenticate / a local alert reported by Read): errors stay reported in both directions")
       else check { s with writeFailed := s.writeFailed || failed } rest
     | .close =>
       if s.closed && o.err != "closed" then some ("close-twice", "a second Close did not report that the connection is closed")
@@ -115,6 +141,8 @@ def check : St → List Step → Option (String × String)
     | .closeWrite =>
       -- refused because the handshake has not completed: nothing was shut down
       if o.err == "early_cw" then check s rest
+      -- it waits for the Write in flight (which holds the write half): it has not returned
+      else if o.err == "block" then check s rest
       -- the close_notify is attempted once; whatever became of it the write side is shut down
       -- (a record was sealed with the next sequence number), and its result stays reported
       else if s.cwFailed && o.err == "" then
